@@ -444,19 +444,25 @@ def rule_builders(chk, cls):
         # the faces are marked independently: a particle within the layer of two faces (both faces of a thin box, an edge, a corner) is on both lists - for every two index lists
         # of the marking loop there is a path through its body that appends to both
         from verif_static import paths as PT
-        marks = [l2 for l2 in ast.walk(loop) if isinstance(l2, ast.For) and l2 is not loop and
-                 len(set(M.call_name(c)[:-7] for c in M.calls(l2) if (M.call_name(c) or '').endswith('.append') and M.call_name(c)[:-7] in b.lists)) >= 6]
-        if len(marks) != 1:
+        # (one loop over the particles marking all faces, or one loop per axis: lists filled by different loops are independent of each other anyway)
+        marks = [l2 for l2 in ast.walk(loop) if isinstance(l2, ast.For) and l2 is not loop and not any(isinstance(l3, ast.For) and l3 is not l2 for l3 in ast.walk(l2)) and
+                 any((M.call_name(c) or '').endswith('.append') and M.call_name(c)[:-7] in b.lists for c in M.calls(l2))]
+        if not marks:
             raise AnalysisError('%s: marking loop not found' % fname)
-        together = set()
         names_m = set()
-        for p_ in PT.enumerate_paths(list(marks[0].body)):
-            ap = sorted(set(cal[:-7] for i_, c_, cal, env_ in PT.calls_on(p_) if cal.endswith('.append') and cal[:-7] in b.lists))
-            names_m |= set(ap)
-            for a1 in ap:
-                for a2 in ap:
-                    together.add((a1, a2))
-        apart = sorted((a1, a2) for a1 in names_m for a2 in names_m if a1 < a2 and (a1, a2) not in together)
+        apart = []
+        for mk in marks:
+            together, names_l = set(), set()
+            for p_ in PT.enumerate_paths(list(mk.body)):
+                ap = sorted(set(cal[:-7] for i_, c_, cal, env_ in PT.calls_on(p_) if cal.endswith('.append') and cal[:-7] in b.lists))
+                names_l |= set(ap)
+                for a1 in ap:
+                    for a2 in ap:
+                        together.add((a1, a2))
+            apart += sorted((a1, a2) for a1 in names_l for a2 in names_l if a1 < a2 and (a1, a2) not in together)
+            names_m |= names_l
+        if len(names_m) < 6:
+            raise AnalysisError('%s: marking loops fill only %s' % (fname, sorted(names_m)))
         chk.decide(not apart, 'ghost-passes-complete:' + kind, 'faces-marked-independently', node=marks[0], file=NB, func=fname,
                    detail_bad='no path through the marking loop puts a particle on both %s and %s (one test is the `else` of the other): a particle within the layer of both faces - '
                               'a box thinner than two layers, an edge - gets only one of its images' % (apart[0] if apart else ('', '')), detail_ok='%d lists, every pair can be appended to for one particle' % len(names_m))
@@ -749,6 +755,8 @@ def main(chk):
     PINNED = ('__init__', '_add_array_to_array', '_add_to_array', '_box_wrap_periodic', '_change_velocity', '_compute_cell_size_for_binning', '_create_ghosts_mirror',
               '_create_ghosts_periodic', '_mul_to_array', '_update_from_gpu', '_update_gpu', 'update', '_check_limits', '_remove_ghosts')
     cls = M.inlined_class(cls_raw, keep=set(PINNED) | set(n_ for n_ in M.methods(cls_raw) if not n_.startswith('_')))
+    # `for indices, translate in ((x_low, xt_low), (x_high, xt_high)): <pass>` is the two passes written out
+    cls = M.literal_loops_unrolled(cls)
     rule_order(chk, cls, base)
     rule_builders(chk, cls)
     rule_indices_current(chk, cls)
